@@ -78,6 +78,32 @@ def parse_events(s):
     return evs
 
 
+def alloc_failure_cases(rng, n):
+    """growable-buffer encoder / decoder under an allocator that refuses requests above L bytes, for every L up to twice
+    the frame length: OutOfMemory must be reported (or the call succeed), the process must never abort.  Not modelled
+    (the model's Vec never fails): an implementation-only measurement."""
+    out = []
+    for _ in range(n):
+        r = rng.random()
+        if r < 0.4:
+            p = gen.payload(rng, rng.randint(0, 70))
+        elif r < 0.8:
+            # escapes, padding and trailer land on every offset relative to the Vec's capacity steps (8, 16, 32, 64, ...)
+            p = bytes(rng.randint(0, 3)) + bytes([0x1b] * rng.choice([3, 4, 5, 8, 9])) + gen.payload(rng, rng.randint(0, 40))
+        else:
+            p = bytes([0x1b] * rng.randint(1, 40))
+        out.append(Case("alloclim " + hx(p), "alloc-failure", dict(alloclim=True)))
+    return out
+
+
+def alloc_failure_check(o):
+    if o.startswith("ABORT") or o in ("NO-OUTPUT", ""):
+        return "the process died while the allocator refused a request (expected: Err(OutOfMemory)): %s" % o[:120]
+    if "x" in o:
+        return "under allocation failure the encoder/decoder returned something other than the frame/payload or OutOfMemory: %s" % o[:120]
+    return None
+
+
 def coarse_derr(o):
     return re.sub(r"EX[0-9a-f.]*", "EX", re.sub(r"EI\d+,\d+,\d,\d+,\d", "EI", o))
 
@@ -146,7 +172,7 @@ class C07(Prop):
     assumptions = ["Vec<u8>::try_reserve does not fail", "ArrayBuf capacities limited to the harness menu"]
 
     def project(self, case, out):
-        return "" if case.line.startswith("encbx ") else coarse_derr(out)
+        return "" if case.line.startswith("encbx ") or case.line.startswith("alloclim ") else coarse_derr(out)
 
     def cases(self, tier, rng):
         n = 700 if tier == "quick" else 6000
@@ -167,6 +193,7 @@ class C07(Prop):
         for cap, n in ((70000, 65536), (70000, 69000), (65536, 65500), (65536, 65530)):
             p = gen.payload(rng, n)
             out.append(Case("encbx %d %s" % (cap, hx(p)), "encb-giant-array", dict(p=hx(p), cap=cap)))
+        out += alloc_failure_cases(rng, 16 if tier == "quick" else 200)
         if tier == "thorough":
             for b in gen.small_bodies(6):
                 out.append(Case("enci 1 " + hx(b), "small-enci", dict(p=hx(b))))
@@ -181,6 +208,13 @@ class C07(Prop):
         fr = dict(zip(ps, spec(["frame " + p for p in ps])))
         bad = []
         for i, c in enumerate(cases):
+            if c.meta.get("alloclim"):
+                for prof, o in both(dbg, rel, i):
+                    why = alloc_failure_check(o)
+                    if why:
+                        bad.append(dict(case=c.line, why="%s build: %s" % (prof, why)))
+                        break
+                continue
             if "p" not in c.meta:
                 continue
             f = fr[c.meta["p"]]
@@ -464,6 +498,7 @@ class C05(Prop):
             out.append(Case("fdecode " + hx(bytes([0x55]) * ln + f), "longnoise"))
             out.append(Case("rd io 8 x%s,x%s nbnbnb" % (hx(bytes([0x55]) * ln), hx(f)), "longnoise"))
         out += reader_cases(rng, 400 if tier == "quick" else 4000)
+        out += alloc_failure_cases(rng, 12 if tier == "quick" else 150)
         return out
 
     def project(self, case, out):
@@ -476,6 +511,12 @@ class C05(Prop):
         bad = []
         for i, c in enumerate(cases):
             for prof, o in both(dbg, rel, i):
+                if c.meta.get("alloclim"):
+                    why = alloc_failure_check(o)
+                    if why:
+                        bad.append(dict(case=c.line, why="%s build: %s" % (prof, why)))
+                        break
+                    continue
                 if has_panic(o):
                     bad.append(dict(case=c.line, why="%s build: a transport entry point panicked / did not return: %s" % (prof, o[:300])))
                     break
@@ -489,8 +530,8 @@ RD_CAPS = ["-", "default", "8192", "1024", "256", "64", "32", "16", "8", "4", "0
 
 
 def model_line(line):
-    if line.startswith("encbx "):
-        return "crc ."           # not run through the model (see C07.cases)
+    if line.startswith("encbx ") or line.startswith("alloclim "):
+        return "crc ."           # not run through the model (see C07.cases / alloc_failure_cases)
     if line.startswith("rd "):
         line = line.replace(" default ", " 8192 ")
         f = line.split(" ")
